@@ -2,7 +2,8 @@
 same text back.  Decided on the MIR of the renderer against the YAML 1.2 quoting rules for the rendered pieces:
   * an environment entry must be `NAME: "<q(value)>"` with q = `\\` → `\\\\`, `"` → `\\"` (values over {a, ", \\, :, space});
   * a path must be double-quoted like that, or be a plain scalar that the flow mapping cannot mistake: over {a, /, ., ',', '}', '"'}
-    a plain path is safe iff it contains no ',' and no '}' and does not start with '"'.
+    a plain path is safe iff it contains no ',' and no '}', does not start with '"', has no leading/trailing blank and does not
+    start with '- '.
 Each witness is replayed through the real round trip (to_yaml_one_liner → ```scrut {…} → MarkdownParser → compare configurations);
 durations (humantime), the other keys, document front-matter and serde_yaml itself are outside."""
 import random
@@ -18,7 +19,7 @@ from mir_models import Models, as_str, char_eq, deref, none, some, z_and, z_not,
 
 NAT = None
 VAL_ALPHA = 'a"\\: '
-PATH_ALPHA = 'a/.,}"'
+PATH_ALPHA = 'a/.,}" -'
 
 
 class YamlModels(Models):
@@ -128,8 +129,11 @@ def h_path(max_len):
             q = quoted_ok(rest[1:], p)
         # … or verbatim and plain-safe
         verbatim = len(rest) >= len(p) and z_and([char_eq(x, y) for x, y in zip(rest, p)])
+        sp = SInt(32, "char")
         safe = z_and([z_not(z_or([char_eq(c, SInt(ord(","), "char")), char_eq(c, SInt(ord("}"), "char"))])) for c in p]
-                     + ([z_not(char_eq(p[0], SInt(ord('"'), "char")))] if p else [False]))
+                     + ([z_not(char_eq(p[0], SInt(ord('"'), "char"))), z_not(char_eq(p[0], sp)), z_not(char_eq(p[-1], sp)),
+                         # a leading "- " starts a sequence entry, a lone "-" is fine only as part of a longer word
+                         (z_not(z_and([char_eq(p[0], SInt(ord("-"), "char")), char_eq(p[1], sp)])) if len(p) > 1 else True)] if p else [False]))
         return z_or([q, z_and([verbatim, safe])])
     inputs = [("path chars=%d" % n, mk(n)) for n in range(1, max_len + 1)]
     h = e2.Harness("one_liner_wait_path", "TestCaseConfig::to_yaml_one_liner", inputs, post, native="one_liner_roundtrip", judge=lambda a, k, v: (False, "", ""),
@@ -150,7 +154,8 @@ def replay(rep, h, res, kind):
             p = "".join(chr(e2.model_int(model, c)) for c in r.ctx.notes["path"])
             w = {"wait": {"timeout": str(10 ** 9), "path": p}}
             what = "wait.path %r" % p
-            sig = "one-liner:wait-path:%s" % ("comma-or-brace" if ("," in p or "}" in p) else "leading-quote" if p.startswith('"') else "other")
+            sig = "one-liner:wait-path:%s" % ("comma-or-brace" if ("," in p or "}" in p) else "leading-quote" if p.startswith('"')
+                                              else "outer-blank" if p != p.strip(" ") else "leading-dash" if p.startswith("-") else "other")
         nk, nv = NAT.call("one_liner_roundtrip", [w])
         if nk != "return" or not nv.get("equal"):
             rep.violation(sig, "%s does not survive to_yaml_one_liner → parse: rendered %r, read back %s" % (what, nv.get("rendered") if isinstance(nv, dict) else nv, nv.get("parsed") if isinstance(nv, dict) else ""),
